@@ -73,8 +73,10 @@ int main (int argc, char** argv)
     return vf_fail ? 1 : 0;
 }
 #else
-#define VF_IN(T, name)  T name
-#define VF_IN_ARR(T, name, n) T name[n]
+/* inputs are nondeterministic but well-typed: an uninitialised _Bool may hold any byte under CBMC, a real one holds 0 or 1 */
+#define VF_WELLTYPED(x) __CPROVER_assume (_Generic ((x), _Bool : *(unsigned char *) &(x) <= 1, default : 1))
+#define VF_IN(T, name)  T name; VF_WELLTYPED (name)
+#define VF_IN_ARR(T, name, n) T name[n]; for (int vf_i = 0; vf_i < _Generic ((name[0]), _Bool : (n), default : 0); vf_i++) VF_WELLTYPED (name[vf_i])
 #define VF_ASSUME(c) __CPROVER_assume (c)
 #define VF_ASSERT(c, msg) __CPROVER_assert (c, msg)
 #define VF_POST(c, msg) do { } while (0)
